@@ -21,7 +21,7 @@ Names of bound variables are alpha-mangled by funsor with a fresh counter; specs
 import re
 
 INTERPS = ("eager", "lazy", "reflect", "normalize")
-SLOTS = ("s0", "s1", "s2")
+SLOTS = ("s0", "s1", "s2", "tq")  # three array slots and one plain-object slot (owner of bound methods)
 
 FUNSOR_HEADS = frozenset(
     "Variable Number Slice Tensor Binary Unary Reduce Subs Lambda Stack Contraction Delta Gaussian".split()
@@ -383,6 +383,26 @@ RECIPE_LIST = [
     Recipe("oSf2", "op", "ops.SumOp(-3, (-4, False))", OP("SumOp", axis=-3, keepdims=(-4, False)),
            alt="ops.SumOp(keepdims=(-4, False), axis=-3)"),
     Recipe("oRs3", "op", "ops.ReshapeOp(((7, 5),))", OP("ReshapeOp", shape=((7, 5),))),
+    # start None vs 0, step None vs 1 (for a negative step, start None and start 0 even MEAN different things)
+    Recipe("oSlD1", "op", "ops.GetsliceOp((slice(None, None, -1),))", OP("GetsliceOp", index=(("slice", None, None, -1),))),
+    Recipe("oSlD2", "op", "ops.GetsliceOp((slice(0, None, -1),))", OP("GetsliceOp", index=(("slice", 0, None, -1),))),
+    Recipe("oSlE1", "op", "ops.GetsliceOp((slice(None, 3),))", OP("GetsliceOp", index=(("slice", None, 3, None),)),
+           alt="ops.GetsliceOp(slice(None, 3))"),
+    Recipe("oSlE2", "op", "ops.GetsliceOp((slice(0, 3),))", OP("GetsliceOp", index=(("slice", 0, 3, None),))),
+    Recipe("oSlF2", "op", "ops.GetsliceOp((slice(None, None, 1),))", OP("GetsliceOp", index=(("slice", None, None, 1),))),
+    # wrapped ops (WrappedOpMeta): keyed by the identity of a callable, bound methods by (id(owner), function);
+    # tq is the object of slot "tq"; every attribute access tq.ladj creates a NEW bound-method object
+    Recipe("oW1", "op", "ops.LogAbsDetJacobianOp(tq.ladj)", OP("LogAbsDetJacobianOp", fn=("method", A("tq"), "ladj")),
+           alt="ops.LogAbsDetJacobianOp(fn=tq.ladj)"),
+    Recipe("oW2", "op", "ops.LogAbsDetJacobianOp(tq.ladj2)", OP("LogAbsDetJacobianOp", fn=("method", A("tq"), "ladj2")),
+           alt="ops.LogAbsDetJacobianOp(tq.ladj2)"),
+    Recipe("oW3", "op", "ops.LogAbsDetJacobianOp(_fq)", OP("LogAbsDetJacobianOp", fn=("fn", "_fq")),
+           alt="ops.LogAbsDetJacobianOp(fn=_fq)"),
+    Recipe("oW4", "op", "ops.WrappedTransformOp(tq)", OP("WrappedTransformOp", fn=A("tq"), validate_args=True),
+           alt="ops.WrappedTransformOp(fn=tq, validate_args=True)"),
+    Recipe("oW5", "op", "ops.WrappedTransformOp(tq.fwd)", OP("WrappedTransformOp", fn=("method", A("tq"), "fwd"), validate_args=True),
+           alt="ops.WrappedTransformOp(fn=tq.fwd)"),
+    Recipe("oW6", "op", "ops.WrappedTransformOp(tq, validate_args=False)", OP("WrappedTransformOp", fn=A("tq"), validate_args=False)),
     Recipe("oSl2", "op", "ops.GetsliceOp((slice(0, 7), 5))", OP("GetsliceOp", index=(("slice", 0, 7, None), 5))),
     # ---- parametrised term types -----------------------------------------------------------------------
     Recipe("tN1", "type", "Number[complex, bytes]", ("type", "Number", ("complex", "bytes"))),
@@ -394,6 +414,17 @@ ORDER = {r.name: i for i, r in enumerate(RECIPE_LIST)}
 
 # keys whose liveness the model predicts although they are not funsor terms: exactly the objects the domain / op /
 # type recipes create (sizes 5 and 7 are used by nothing else in the library or the harness)
+def strip_gens(key):
+    """("arr", slot, gen) -> ("arr", slot) everywhere."""
+    if isinstance(key, tuple):
+        if len(key) == 3 and key[0] == "arr":
+            return key[:2]
+        return tuple(strip_gens(y) for y in key)
+    if isinstance(key, frozenset):
+        return frozenset(strip_gens(y) for y in key)
+    return key
+
+
 PREDICTED_NONTERM_KEYS = set()
 for _r in RECIPE_LIST:
     if _r.kind != "term":
@@ -402,7 +433,7 @@ for _r in RECIPE_LIST:
 
 
 def liveness_predicted(key):
-    return key[0] in FUNSOR_HEADS or key in PREDICTED_NONTERM_KEYS
+    return key[0] in FUNSOR_HEADS or strip_gens(key) in PREDICTED_NONTERM_KEYS
 
 
 # ---------------------------------------------------------------------------
